@@ -3,7 +3,7 @@
 // Three independent sets of real actors (config, table manager, namespace, sequence db, MCP, naming, cache, Raft index
 // manager) are driven with the same committed request sequence — set L through RaftDataHandler::apply_log_to_state_machine
 // (leader), set F through do_send_log (follower, fire and forget), set R through load_log (start-up replay) — and then asked
-// the same queries.  Every sequence of length <= 3 over an alphabet of 20 requests (all 11 ClientRequest variants).
+// the same queries.  Every sequence of length <= 3 over an alphabet of 21 requests (all 11 ClientRequest variants).
 // The observable answers must be identical on the three sets.
 use super::*;
 use crate::cache::actor_model::CacheSetParam;
@@ -12,6 +12,8 @@ use crate::cache::actor_model::CacheManagerRaftReq;
 use crate::config::core::ConfigResult;
 use crate::config::dal::ConfigHistoryParam;
 use crate::config::model::ConfigHistoryItemDO;
+use crate::mcp::model::actor_model::{McpManagerRaftReq, McpManagerReq, McpManagerResult};
+use crate::mcp::model::mcp::McpServerParam;
 use crate::namespace::model::{NamespaceParam, NamespaceQueryReq, NamespaceQueryResult, NamespaceRaftReq};
 use crate::naming::core::{NamingCmd, NamingResult};
 use crate::naming::model::actor_model::{InstanceRegisterParam, NamingRaftReq};
@@ -79,7 +81,13 @@ fn instance_param(port: u32, weight: f32, enabled: bool) -> InstanceRegisterPara
     }
 }
 
-const ALPHABET: usize = 20;
+const ALPHABET: usize = 21;
+
+fn mcp_param(value_id: u64, description: &str, publish: Option<u64>) -> McpServerParam {
+    McpServerParam { id: 1, unique_key: Some(s("mcp-key-1")), value_id, tools: vec![], op_user: s("ops"), update_time: 1_700_000_000_000 + value_id as i64,
+        namespace: Some(s("ns1")), name: Some(s("srv")), description: Some(s(description)), token: Some(s("tok")), auth_keys: Some(vec![s("k1"), s("k2")]),
+        publish_value_id: publish }
+}
 
 fn request(i: usize) -> ClientRequest {
     let users = s("T_USER");
@@ -89,7 +97,7 @@ fn request(i: usize) -> ClientRequest {
         2 => ClientRequest::ConfigSet { key: K2.to_owned(), value: s("w"), config_type: Some(s("properties")), desc: None, history_id: 3, history_table_id: Some(300), op_time: 1_700_000_000_003, op_user: Some(s("bob")) },
         3 => ClientRequest::ConfigRemove { key: K1.to_owned() },
         4 => ClientRequest::ConfigFullValue { key: K1.as_bytes().to_vec(), value: full_value_bytes(), last_seq_id: Some(40) },
-        5 => ClientRequest::ConfigFullValue { key: K2.as_bytes().to_vec(), value: full_value_bytes(), last_seq_id: None },
+        5 => ClientRequest::McpReq { req: McpManagerRaftReq::UpdateServer(mcp_param(13, "second description", None)) },
         6 => ClientRequest::TableManagerReq(TableManagerReq::Set { table_name: users, key: b"u1".to_vec(), value: b"user-one".to_vec(), last_seq_id: None }),
         7 => ClientRequest::TableManagerReq(TableManagerReq::Set { table_name: users, key: b"u2".to_vec(), value: b"user-two".to_vec(), last_seq_id: Some(9) }),
         8 => ClientRequest::TableManagerReq(TableManagerReq::Remove { table_name: users, key: b"u1".to_vec() }),
@@ -104,7 +112,8 @@ fn request(i: usize) -> ClientRequest {
         17 => ClientRequest::NamingReq { req: NamingRaftReq::RemoveInstance(InstanceKey::new_by_service_key(
             &ServiceKey::new("public", "DEFAULT_GROUP", "svc"), s("10.1.1.1"), 8080)) },
         18 => ClientRequest::CacheReq { req: CacheManagerRaftReq::Set(CacheSetParam::new(CacheKey::new(CacheType::String, s("ck")), CacheValue::String(s("cv")))) },
-        _ => ClientRequest::Members(vec![1, 2, 3]),
+        19 => ClientRequest::McpReq { req: McpManagerRaftReq::AddServer(mcp_param(11, "first description", Some(12))) },
+        _ => ClientRequest::McpReq { req: McpManagerRaftReq::RemoveServer(1) },
     }
 }
 
@@ -160,6 +169,11 @@ async fn observe(n: &NodeSet) -> String {
         }
         _ => out.push_str("naming=? "),
     }
+    match n.h.mcp_manager.send(McpManagerReq::GetServer(1)).await.unwrap() {
+        Ok(McpManagerResult::ServerInfo(srv)) => out.push_str(&format!("mcp={:?} ", srv).replace(' ', "_").replace("mcp=", " mcp=")),
+        _ => out.push_str("mcp=? "),
+    }
+    out.push(' ');
     match n.h.direct_cache_manager.send(CacheManagerRaftReq::Get(CacheKey::new(CacheType::String, s("ck")))).await.unwrap() {
         Ok(r) => out.push_str(&format!("cache={:?} ", r)),
         Err(_) => out.push_str("cache=err "),
@@ -216,7 +230,7 @@ fn vx_bounded_c07_paths() {
             // reachability: the requests really change what is observed (a comparison of three empty answers proves nothing)
             if seq.len() == 1 {
                 let want = match seq[0] { 0 => "v1", 1 => "json", 2 => "properties", 4 => "full-content", 6 => "117, 115, 101, 114, 45, 111, 110, 101", 10 => "ns1=first", 13 => "seq=11",
-                    14 => "seq=5", 15 => "10.1.1.1:8080 w2", 18 => "cv", _ => "" };
+                    14 => "seq=5", 15 => "10.1.1.1:8080 w2", 18 => "cv", 19 => "first_description", _ => "" };
                 if !ol.contains(want) { failures.push(format!("VX-BOUNDED-FAIL VACUITY request {} is not visible in the observation: {}", seq[0], ol)); }
             }
             if of != ol && failures.len() < 12 {
